@@ -144,6 +144,13 @@ func TestVerifC12BalancerRanking(t *testing.T) {
 				}
 			}
 			dirLabels = append(dirLabels, fmt.Sprintf("directed:group-of-%d", len(g.UUIDs)))
+			for _, u := range g.UUIDs {
+				if len(u) == 27 {
+					dirLabels = append(dirLabels, "directed:member-with-27-char-uuid")
+				} else {
+					dirLabels = append(dirLabels, "directed:member-with-other-length-uuid")
+				}
+			}
 			if stats.WantSample("directed near-collision") {
 				stats.Sample("directed near-collision", map[string]interface{}{"hash": g.Hash, "uuids": g.UUIDs, "weights": g.Weights, "shared_hex_digits": g.Shared, "candidates_tried": g.Tried})
 			}
@@ -256,7 +263,15 @@ func TestVerifC12BalancerRanking(t *testing.T) {
 		}
 
 		labels := []string{fmt.Sprintf("uuids=%s", [...]string{"all-27", "all-other-length", "mixed"}[mode]), fmt.Sprintf("hashes=%d", len(hashes))}
-		labels = append(labels, dirLabels...)
+		{
+			seenL := map[string]bool{}
+			for _, l := range dirLabels {
+				if !seenL[l] {
+					seenL[l] = true
+					labels = append(labels, l)
+				}
+			}
+		}
 		{
 			// measured on the set itself: the longest weight prefix two servers share for one of the hashes
 			keys := make([]string, len(uuids))
